@@ -22,6 +22,12 @@
 (*   prune-after-meta no unlink / shrink of a rollback segment before the   *)
 (*                    meta page is durable                                  *)
 (*   recover-metasync / recover-htsync   the same two for a recovery        *)
+(*   list-rewritten   (FreeList!CopyOnWrite, across two calls) a committed  *)
+(*                    call that wrote, before its switch-over, to a page    *)
+(*                    the old image's free list named has taken that page   *)
+(*                    from the list: the image it leaves must hold a        *)
+(*                    REWRITTEN list (another head page) - otherwise the    *)
+(*                    list on disk still hands out a page that is in use    *)
 (***************************************************************************)
 EXTENDS Naturals, Sequences, FiniteSets, TLC, Json, IOUtils
 
@@ -35,9 +41,11 @@ VARIABLES l,         \* next record
           metaW,     \* the meta page was written in this call
           metaD,     \* ... and fsynced
           created,   \* segment files created and not yet covered by a directory sync
-          bad        \* rule violations found so far in this call (reported once per call and rule)
+          bad,       \* rule violations found so far in this call (reported once per call and rule)
+          took,      \* files (ln / bbn) of which this call wrote a free-listed page before the switch-over
+          prev       \* <<>> or what the last call of the run left behind, if it committed: [run, took, head]
 
-vars == <<l, op, dirty, inflight, syncing, metaW, metaD, created, bad>>
+vars == <<l, op, dirty, inflight, syncing, metaW, metaD, created, bad, took, prev>>
 
 IsSeg(f) == f \notin {"meta", "wal", "ht", "ln", "bbn", ".", ".lock"}
 IsWriteKind(k) == k \in {"write", "append", "setlen", "submit"}
@@ -45,10 +53,21 @@ IsWriteKind(k) == k \in {"write", "append", "setlen", "submit"}
 Cur == Rec[l]
 
 FreeOf(f) == {op.pre[f].free[i] : i \in 1..Len(op.pre[f].free)}
-\* a page the old image does not reference: on the free list, or at / beyond the bump pointer
-Unreferenced(f, p) == p \in FreeOf(f) \/ p >= op.pre[f].bump
+\* the pages the old image references, found by the independent decoder walking the trees (when recorded)
+LiveOf(f) == IF "live" \in DOMAIN op.pre[f] THEN {op.pre[f].live[i] : i \in 1..Len(op.pre[f].live)} ELSE {}
+\* a page the old image does not reference: on the free list, or at / beyond the bump pointer - and not
+\* reachable from the old image's trees (the store's own free list is not trusted: a list that still names a page
+\* the trees use does not make that page writable)
+Unreferenced(f, p) == (p \in FreeOf(f) \/ p >= op.pre[f].bump) /\ p \notin LiveOf(f)
 
 IsRecovery == op # <<>> /\ op.op.a = "Reopen"
+
+HeadOf(pre, f) == IF Len(pre[f].flPages) = 0 THEN 0 ELSE pre[f].flPages[1]
+\* files whose free list the previous call popped from and which still has the same head page
+StaleLists(e) ==
+    IF prev = <<>> \/ "run" \notin DOMAIN e THEN {}
+    ELSE IF prev.run # e.run THEN {}
+    ELSE {f \in prev.took : HeadOf(e.pre, f) = prev.head[f]}
 
 Report(rule) == IF rule \in bad THEN TRUE ELSE PrintT(<<"RULE-VIOLATED", rule, l, ToJson(Cur)>>)
 
@@ -87,16 +106,22 @@ BeginViolations(e) ==
           [] OTHER -> FALSE}
 
 Init == l = 1 /\ op = <<>> /\ dirty = {} /\ inflight = {} /\ syncing = {} /\ metaW = FALSE /\ metaD = FALSE
-        /\ created = {} /\ bad = {}
+        /\ created = {} /\ bad = {} /\ took = {} /\ prev = <<>>
 
 StepOp ==
     /\ Cur.ev = "op"
     /\ op' = Cur /\ dirty' = {} /\ inflight' = {} /\ syncing' = {} /\ metaW' = FALSE /\ metaD' = FALSE
-    /\ created' = {} /\ bad' = {}
+    /\ created' = {} /\ bad' = {} /\ took' = {}
+    /\ IF StaleLists(Cur) # {} THEN PrintT(<<"RULE-VIOLATED", "list-rewritten", l, ToJson([ev |-> "op", run |-> Cur.run, i |-> Cur.i, op |-> Cur.op, files |-> StaleLists(Cur), head |-> prev.head])>>) ELSE TRUE
+    /\ UNCHANGED prev
 
 StepRet ==
     /\ Cur.ev = "ret"
-    /\ UNCHANGED <<op, dirty, inflight, syncing, metaW, metaD, created, bad>>
+    \* only a call that reached its durable switch-over (and is not a recovery) says something about the next image
+    /\ prev' = IF op # <<>> /\ ~IsRecovery /\ metaD /\ "run" \in DOMAIN op
+               THEN [run |-> op.run, took |-> took, head |-> [f \in {"ln", "bbn"} |-> HeadOf(op.pre, f)]]
+               ELSE <<>>
+    /\ UNCHANGED <<op, dirty, inflight, syncing, metaW, metaD, created, bad, took>>
 
 StepIo ==
     /\ Cur.ev = "io"
@@ -139,7 +164,10 @@ StepIo ==
                      /\ UNCHANGED <<dirty, inflight, syncing, metaW, metaD>>
                  ELSE UNCHANGED <<dirty, inflight, syncing, metaW, metaD, created>>
           ELSE /\ bad' = bad /\ UNCHANGED <<dirty, inflight, syncing, metaW, metaD, created>>
-    /\ UNCHANGED op
+    /\ took' = IF Cur.ph = "begin" /\ ~Cur.inj /\ ~IsRecovery /\ Cur.k = "submit" /\ Cur.f \in {"ln", "bbn"} /\ ~metaD
+                  /\ Cur.off \in FreeOf(Cur.f)
+               THEN took \cup {Cur.f} ELSE took
+    /\ UNCHANGED <<op, prev>>
 
 Next == /\ l <= Len(Rec)
         /\ StepOp \/ StepRet \/ StepIo
